@@ -25,6 +25,10 @@ def canon(v, meta=False):
     if isinstance(v, dict):
         return ['D', sorted([canon(k, meta), canon(x, meta)] for k, x in v.items())]
     cn = type(v).__name__
+    if cn in ('SymbolNode', 'StableSymbolNode'):
+        # ambiguity='forest': the SPPF root, made comparable through lark's own forest -> tree transformer (all ambiguities kept)
+        from lark.parsers.earley_forest import TreeForestTransformer
+        return ['F', canon(TreeForestTransformer(resolve_ambiguity=False).transform(v), meta)]
     if cn == 'ScanMatch':
         return ['S', list(v.range), canon(v.value, meta)]
     return ['V', cn, repr(v)]
